@@ -101,18 +101,81 @@ def ilist(l):
     return ','.join(str(x) for x in l)
 
 
-def w_rules(seq, d, wv):
+_PAT_CACHE = {}
+
+
+def pat_wire(rx):
+    """wire form of a regex of the RegexLite subset (`kind:chars/kind:chars…`), None when the regex is outside the subset"""
+    if rx not in _PAT_CACHE:
+        from .. import translate_proteases as tp
+        k = {'behind': 'b', 'ahead': 'a', 'aheadNot': 'n', 'notAhead': 'x', 'consume': 'c'}
+        try:
+            _PAT_CACHE[rx] = '/'.join(f'{k[a]}:{"".join(c)}' for a, c in tp.parse_regex(rx))
+        except (tp.Unmodelled, ValueError, IndexError):
+            _PAT_CACHE[rx] = None
+    return _PAT_CACHE[rx]
+
+
+def w_target(seq, rx, patterns):
+    pw = pat_wire(rx) if patterns else None
+    return ilist(impl_sites(seq, rx)) if pw is None else 'P' + pw
+
+
+def w_rules(seq, d, wv, patterns=False):
     if d is None:
         return 'N'
-    return 'D' + ';'.join(f'{ilist(impl_sites(seq, k))}~{wv(v)}' for k, v in d.items())
+    return 'D' + ';'.join(f'{w_target(seq, k, patterns)}~{wv(v)}' for k, v in d.items())
 
 
-def w_term(seq, t, wv):
+def w_term(seq, t, wv, patterns=False):
     if t is None:
         return 'N'
     if isinstance(t, dict):
-        return w_rules(seq, t, wv)
+        return w_rules(seq, t, wv, patterns)
     return 'X' + wv(t)
+
+
+SUBSET_LETTERS = 'PEKST'
+
+
+def gen_subset_regex(rng):
+    """a random regex of the RegexLite subset over the residue alphabet"""
+    def cls():
+        k = rng.choice([1, 1, 2, 3])
+        cs = ''.join(rng.sample(SUBSET_LETTERS, k))
+        return cs if k == 1 and rng.random() < 0.7 else '[' + cs + ']'
+
+    def consume():
+        c = cls()
+        return '(' + c + ')' if rng.random() < 0.15 else c
+
+    r = rng.random()
+    if r < 0.05:
+        return ''
+    if r < 0.35:                                       # look-behinds, one residue, look-aheads
+        pre = ''.join('(?<=' + cls() + ')' for _ in range(rng.choice([0, 0, 1, 1, 2])))
+        post = ''.join(rng.choice(['(?=%s)' % cls(), '(?!%s)' % cls(), '(?=[^%s])' % rng.choice(SUBSET_LETTERS)])
+                       for _ in range(rng.choice([0, 0, 1, 1, 2])))
+        return pre + consume() + post
+    if r < 0.55:                                       # zero-width only
+        items = ['(?<=' + cls() + ')' for _ in range(rng.choice([0, 1]))]
+        items += [rng.choice(['(?=%s)' % cls(), '(?!%s)' % cls(), '(?=[^%s])' % rng.choice(SUBSET_LETTERS)])
+                  for _ in range(rng.choice([0, 1, 2]))]
+        return ''.join(items)
+    items = []                                         # anything, in any order
+    for _ in range(rng.randint(1, 4)):
+        q = rng.random()
+        if q < 0.5:
+            items.append(consume())
+        elif q < 0.65:
+            items.append('(?<=' + cls() + ')')
+        elif q < 0.8:
+            items.append('(?=' + cls() + ')')
+        elif q < 0.9:
+            items.append('(?!' + cls() + ')')
+        else:
+            items.append('(?=[^' + rng.choice(SUBSET_LETTERS) + '])')
+    return ''.join(items)
 
 
 def canon_list(reply):
@@ -309,6 +372,23 @@ def static_line(c):
     s = a.sequence
     return '\t'.join(['static', c['a'], c['mode'], w_rules(s, c['internal'], w_modsin), w_term(s, c['nterm'], w_modsin),
                       w_term(s, c['cterm'], w_modsin), ilist(impl_sites(s, ''))])
+
+
+def static_pat_line(c):
+    """rules of the RegexLite subset travel as patterns (the model does the matching), the others as site lists"""
+    c = unjcase(c)
+    a = W.undump(c['a'])
+    s = a.sequence
+    return '\t'.join(['static_pat', c['a'], c['mode'], w_rules(s, c['internal'], w_modsin, True),
+                      w_term(s, c['nterm'], w_modsin, True), w_term(s, c['cterm'], w_modsin, True)])
+
+
+def var_pat_line(c):
+    c = unjcase(c)
+    a = W.undump(c['a'])
+    s = a.sequence
+    return '\t'.join(['variable_pat', c['a'], c['mode'], str(c['max_mods']), w_rules(s, c['internal'], w_varin, True),
+                      w_term(s, c['nterm'], w_varin, True), w_term(s, c['cterm'], w_varin, True)])
 
 
 def var_line(c, op='variable'):
@@ -706,6 +786,10 @@ def run(chk):
         'the regex engine is outside the Lean model: every rule enters the model as the site list computed by the implementation '
         '(get_regex_match_indices(sequence, rule, offset=-1)); the site finder is compared with an independent reading of each of the '
         f'{len(RULES) + 1} rules of the pool (single residues, classes, look-behind/look-ahead forms, multi-character matches, anchors)',
+        'for regexes of the RegexLite subset (literals, classes, sequences of them, (?<=[..]) (?=[..]) (?=[^..]) (?![..]), the empty '
+        'pattern) the matcher is inside the model as well (matchRanges / matchIndices / modSites = get_regex_match_range / '
+        'get_regex_match_indices with finditer(overlapped=True)), tied by correspondence on strings over the residue alphabet; the '
+        'regex -> item-list reader (harness/translate_proteases.parse_regex) is trusted; any other regex keeps entering as a site list',
         'modelled: apply_static_mods, _apply_variable_mods_rec, _variable_mods_builder, apply_variable_mods, ProFormaAnnotation.'
         'add_internal_mod/add_nterm_mods/add_cterm_mods/has_internal_mods_at_index/count_modified_residues/__eq__, fix_list_of_mods, '
         'fix_list_of_list_of_mods, remove_empty_list_of_list_of_mods; not modelled: convert_to_mod/convert_type (C10), parse/serialize '
@@ -770,13 +854,62 @@ def run(chk):
                 'protocol line') % L
 
     # ------------------------------------------------------------------ correspondence
-    chk.correspond('apply_static_mods', DRV, static_cases, static_line, lambda c: W.dump(call_static(c)),
+    memo = {}
+
+    def impl_static(c):
+        if id(c) not in memo:
+            memo[id(c)] = W.dump(call_static(c))
+        return memo[id(c)]
+
+    def impl_var(c):
+        if id(c) not in memo:
+            memo[id(c)] = ' '.join(W.dump(x) for x in call_var(c))
+        return memo[id(c)]
+
+    chk.correspond('apply_static_mods', DRV, static_cases, static_line, impl_static,
                    compare=lambda im, m: im == W.canon_dump(m),
                    nontrivial_fn=lambda c, im: im != c['a'])
 
-    chk.correspond('apply_variable_mods', DRV, var_cases, var_line, lambda c: ' '.join(W.dump(x) for x in call_var(c)),
+    chk.correspond('apply_variable_mods', DRV, var_cases, var_line, impl_var,
                    compare=lambda im, m: im == canon_list(m),
                    nontrivial_fn=lambda c, im: im.count(' ') >= 2)
+
+    # ------------------------------------------------------------------ the regex subset inside the model
+    # (a) the matcher: get_regex_match_range / get_regex_match_indices against matchRanges / matchIndices
+    from peptacular.util import get_regex_match_range, get_regex_match_indices
+    in_subset = [rx for rx in RULE_KEYS + [''] if pat_wire(rx) is not None]
+    chk.notes.append('rules of the pool inside the RegexLite subset (matched by the model): %s; outside (enter as site lists): %s'
+                     % (in_subset, [rx for rx in RULE_KEYS if pat_wire(rx) is None]))
+    rx_strings = [''.join(t) for k in range(0, 4 if quick else 6) for t in itertools.product('PEKST', repeat=k)]
+    rx_cases = [(s_, rx) for s_ in rx_strings[::(2 if quick else 1)] for rx in in_subset]
+    for _ in range(3000 if quick else 40000):
+        rx = gen_subset_regex(rng)
+        if pat_wire(rx) is None:
+            continue
+        rx_cases.append((''.join(rng.choice(ALPHA) for _ in range(rng.randint(0, 10))), rx))
+    for s_, rx in rx_cases[:50]:
+        chk.count('subset-regex-sample:' + rx)
+    chk.correspond('get_regex_match_range', DRV, rx_cases, lambda c: f'ranges\t{pat_wire(c[1])}\t{c[0]}',
+                   lambda c: ','.join(f'{a_}:{b_}' for a_, b_ in get_regex_match_range(c[0], c[1])),
+                   nontrivial_fn=lambda c, im: bool(im))
+    idx_cases = [(s_, rx, off) for (s_, rx) in rx_cases for off in (-1, 0)]
+    chk.correspond('get_regex_match_indices', DRV, idx_cases, lambda c: f'indices\t{pat_wire(c[1])}\t{c[0]}\t{c[2]}',
+                   lambda c: ilist(get_regex_match_indices(c[0], c[1], offset=c[2])),
+                   nontrivial_fn=lambda c, im: bool(im))
+
+    # (b) end to end: the same cases, rules of the subset given to the model as patterns
+    def uses_pattern(c):
+        c = unjcase(c)
+        ds = [d for d in (c['internal'], c['nterm'], c['cterm']) if isinstance(d, dict)]
+        return any(pat_wire(k) is not None for d in ds for k in d) or any(
+            c[k] is not None and not isinstance(c[k], dict) for k in ('nterm', 'cterm'))
+
+    chk.correspond('apply_static_mods(patterns)', DRV, static_cases, static_pat_line, impl_static,
+                   compare=lambda im, m: im == W.canon_dump(m),
+                   nontrivial_fn=lambda c, im: im != c['a'] and uses_pattern(c))
+    chk.correspond('apply_variable_mods(patterns)', DRV, var_cases, var_pat_line, impl_var,
+                   compare=lambda im, m: im == canon_list(m),
+                   nontrivial_fn=lambda c, im: im.count(' ') >= 2 and uses_pattern(c))
 
     # _apply_variable_mods_rec called directly (also with max counts below the starting count and negative)
     from peptacular.sequence import mod_builder as mb
